@@ -164,6 +164,11 @@ impl Lexicon {
                         }
                         _ => {
                             features_len += nin;
+                            // An empty last field at the very end of the input consumes nothing,
+                            // not even a record terminator: count the one subtracted below.
+                            if record_end && nin == 0 {
+                                features_len += 1;
+                            }
                         }
                     }
                     record_end_pos += nin;
